@@ -425,7 +425,10 @@ def run_top(R: Run, only_plans=False):
             dshape = (rng.choice([1, 2, 3]), rng.randint(40, 400))[:: rng.choice([1, -1])]
         S = world_affine(ca.geographic)
         Mx, mkind = c03.gen_M_exact(rng, sshape, dshape)
-        if rng.random() < 0.6:  # the image of the destination's centre lands inside or just next to the source
+        twin = rng.random() < 0.08  # numerically identical grids: same shape, same affine numbers (in the same or another CRS)
+        if twin:
+            dshape, Mx, mkind = sshape, Affine.identity(), "twin"
+        elif rng.random() < 0.6:  # the image of the destination's centre lands inside or just next to the source
             qx, qy = Mx * (dshape[1] / 2, dshape[0] / 2)
             Mx = Affine.translation(rng.randint(-2, sshape[1] + 2) - round(qx), rng.randint(-2, sshape[0] + 2) - round(qy)) * Mx
         if rng.random() < 0.25:  # disjoint, a fraction of a pixel (or a little more than a padding) beyond one source edge
@@ -440,7 +443,7 @@ def run_top(R: Run, only_plans=False):
         if any(Fraction(v) * 64 % 1 != 0 for v in (Mx.c, Mx.f)):
             Mx = Affine(Mx.a, Mx.b, round(Mx.c * 4) / 4, Mx.d, Mx.e, round(Mx.f * 4) / 4)
         # destination grid: the forward transformer's linear part applied to the source grid, then the relative placement
-        if same:
+        if same or twin:
             D = S * Mx
         elif kind == "aff":
             L = Affine(*[float(v) for v in (pf.ffn((1, 0))[0] - pf.ffn((0, 0))[0], 0, pf.ffn((0, 0))[0], 0,
@@ -469,6 +472,8 @@ def run_top(R: Run, only_plans=False):
             continue
         pad = rng.choice([None, None, None, 0, 1, 2, 5])
         al = rng.choice([None, None, None, 0, 2, 4, 16])
+        if twin and rng.random() < 0.8:
+            pad, al = rng.choice([None, None, 0]), rng.choice([None, None, 0])
         ttol, stol = rng.choice([0.05, 0.05, 2**-4, 0.26]), rng.choice([1e-3, 1e-3, 2**-7])
         src, dst = gb(sshape, S, ca), gb(dshape, D, cb)
         S6, D6 = faff(S), faff(D)
@@ -536,7 +541,7 @@ def run_top(R: Run, only_plans=False):
             continue
         placement = c03.placement(res[0], sshape, dshape) if res else "raises"
         branch = "linear" if same else "gbx"
-        tag = f"top|{branch}|{kind if not same else mkind}|{'full' if full else 'rois'}|{placement}" + (
+        tag = f"top|{branch}|{(kind if not same else mkind) + ('-twin' if twin else '')}|{'full' if full else 'rois'}|{placement}" + (
             "|clamp" if not clamp_free else "") + ("|singular" if singular else "") + ("|align" if al else "") + ("|pad" if pad else "")
         R.corr(f"c03 top {'full' if full else 'rois'} {sshape[0]} {sshape[1]} {aff_s(S)} {bool_s(ca.geographic)} T "
                f"{dshape[0]} {dshape[1]} {aff_s(D)} {bool_s(cb.geographic)} T {bool_s(same)} {pf.spec} {pb.spec} "
